@@ -1,2 +1,471 @@
+//! C49 (boundary half): execution limits are enforced exactly.
+//!
+//! For random `LimitParameters` overrides and every limited quantity, SysProbe programs that
+//! produce exactly L and L+1 of the quantity are executed from the same ledger snapshot: the
+//! L-program must commit successfully, the (L+1)-program must fail with the matching
+//! `TransactionLimitsError` variant. Quantities whose size the harness can compute itself
+//! (event/log counts and sizes, encoded key size, stored value size) are built to hit L exactly;
+//! for invoke payload and call depth the quantity is measured objectively by the kernel hook
+//! (bytes of the largest invocation argument, deepest frame entered); for heap and track bytes the
+//! threshold T of a program is found by bisection over the limit and exactness is checked as:
+//! program+1 byte fails at T with the matching variant reporting actual == T+1 and succeeds at T+1,
+//! program fails at T-1 reporting actual == T.
+use crate::pledger::PExec;
+use crate::probe::*;
+use crate::world::*;
+use radix_engine::errors::{RuntimeError, SystemModuleError};
+use radix_engine::system::system_modules::limits::TransactionLimitsError;
+use radix_engine::system::system_substates::KeyValueEntrySubstate;
+use radix_engine_interface::api::ACTOR_STATE_SELF;
 use rv_common::*;
-pub fn run(_args: &Args) -> i32 { 2 }
+use rv_ledger::monitors::History;
+use rv_ledger::prelude::*;
+use serde_json::json;
+use std::time::Duration;
+
+#[derive(Debug, Clone, PartialEq)]
+enum Outcome {
+    Success,
+    Limit(String, Option<(usize, usize)>),
+    Other(String),
+}
+
+fn classify(r: &PExec) -> Outcome {
+    let Some(receipt) = &r.exec.receipt else { return Outcome::Other("panic-or-no-receipt".into()) };
+    match &receipt.result {
+        TransactionResult::Commit(c) => match &c.outcome {
+            TransactionOutcome::Success(_) => Outcome::Success,
+            TransactionOutcome::Failure(RuntimeError::SystemModuleError(SystemModuleError::TransactionLimitsError(e))) => {
+                let name: String = format!("{:?}", e).chars().take_while(|c| c.is_alphanumeric()).collect();
+                let am = match e {
+                    TransactionLimitsError::TrackSubstateSizeExceeded { actual, max }
+                    | TransactionLimitsError::HeapSubstateSizeExceeded { actual, max }
+                    | TransactionLimitsError::LogSizeTooLarge { actual, max }
+                    | TransactionLimitsError::EventSizeTooLarge { actual, max } => Some((*actual, *max)),
+                    _ => None,
+                };
+                Outcome::Limit(name, am)
+            }
+            TransactionOutcome::Failure(e) => Outcome::Other(format!("commit-failure:{}", rv_ledger::monitors::error_class(e))),
+        },
+        _ => Outcome::Other(rv_ledger::outcome_class(receipt)),
+    }
+}
+
+struct Bench {
+    world: PWorld,
+    snap: LedgerSimulatorSnapshot,
+    hist: History,
+}
+
+impl Bench {
+    fn run(&mut self, shard: &mut Shard, label: &str, script: Vec<Op>, limits: Option<LimitParameters>) -> (Outcome, PExec) {
+        self.world.ledger.sim.restore_snapshot(self.snap.clone());
+        self.world.ledger.hist = self.hist.clone();
+        let launch = Launch { callee: Callee::Method(self.world.g[0]), script, buckets: vec![], proofs: 0, reservations: vec![], refs: vec![self.world.g[0], self.world.g[1], self.world.g_b, self.world.pkg[0].into(), self.world.pkg[1].into(), self.world.res.into()] };
+        let cfg = limits.map(|l| ExecutionConfig::for_test_transaction().update_system_overrides(|o| SystemOverrides { limit_parameters: Some(l), ..o }));
+        let r = self.world.launch(shard, label, &launch, cfg);
+        (classify(&r), r)
+    }
+}
+
+fn random_limits(rng: &mut Rng) -> LimitParameters {
+    LimitParameters {
+        max_call_depth: rng.range(6, 16) as usize,
+        max_heap_substate_total_bytes: rng.range(8 << 20, 64 << 20) as usize,
+        max_track_substate_total_bytes: rng.range(8 << 20, 64 << 20) as usize,
+        max_substate_key_size: rng.range(200, 2048) as usize,
+        max_substate_value_size: rng.range(64 << 10, 2 << 20) as usize,
+        max_invoke_input_size: rng.range(64 << 10, 1 << 20) as usize,
+        max_event_size: rng.range(64, 64 << 10) as usize,
+        max_log_size: rng.range(64, 64 << 10) as usize,
+        max_panic_message_size: LimitParameters::babylon_genesis().max_panic_message_size,
+        max_number_of_logs: rng.range(4, 300) as usize,
+        max_number_of_events: rng.range(8, 300) as usize,
+    }
+}
+
+const QUANTITIES: [&str; 10] = ["events_count", "logs_count", "event_size", "log_size", "key_size", "value_size", "invoke_payload", "call_depth", "heap_bytes", "track_bytes"];
+
+fn expected_variant(q: &str) -> &'static str {
+    match q {
+        "events_count" => "TooManyEvents",
+        "logs_count" => "TooManyLogs",
+        "event_size" => "EventSizeTooLarge",
+        "log_size" => "LogSizeTooLarge",
+        "key_size" => "MaxSubstateKeySizeExceeded",
+        "value_size" => "MaxSubstateSizeExceeded",
+        "invoke_payload" => "MaxInvokePayloadSizeExceeded",
+        "call_depth" => "MaxCallDepthLimitReached",
+        "heap_bytes" => "HeapSubstateSizeExceeded",
+        _ => "TrackSubstateSizeExceeded",
+    }
+}
+
+fn limits_fields(l: &LimitParameters) -> Vec<usize> {
+    vec![l.max_call_depth, l.max_heap_substate_total_bytes, l.max_track_substate_total_bytes, l.max_substate_key_size, l.max_substate_value_size, l.max_invoke_input_size, l.max_event_size, l.max_log_size, l.max_panic_message_size, l.max_number_of_logs, l.max_number_of_events]
+}
+
+fn limits_from_fields(f: &[usize]) -> LimitParameters {
+    LimitParameters {
+        max_call_depth: f[0],
+        max_heap_substate_total_bytes: f[1],
+        max_track_substate_total_bytes: f[2],
+        max_substate_key_size: f[3],
+        max_substate_value_size: f[4],
+        max_invoke_input_size: f[5],
+        max_event_size: f[6],
+        max_log_size: f[7],
+        max_panic_message_size: f[8],
+        max_number_of_logs: f[9],
+        max_number_of_events: f[10],
+    }
+}
+
+fn detail(q: &str, limits: &LimitParameters, l: usize, program: &str, got: &Outcome) -> serde_json::Value {
+    json!({"quantity": q, "limit_L": l, "limits": format!("{:?}", limits), "limits_fields": limits_fields(limits), "program": program, "observed": format!("{:?}", got)})
+}
+
+/// Judge the pair (at-L run, at-L+1 run).
+fn judge_pair(shard: &mut Shard, q: &str, limits: &LimitParameters, l: usize, prog_l: &str, at_l: &Outcome, prog_l1: &str, at_l1: &Outcome) {
+    shard.count(&format!("c49:{q}:pairs"));
+    shard.nontrivial(&(q, l, format!("{:?}", at_l).chars().take(30).collect::<String>(), format!("{:?}", at_l1).chars().take(40).collect::<String>()));
+    match at_l {
+        Outcome::Success => shard.count(&format!("c49:{q}:success_at_L")),
+        Outcome::Limit(v, _) => {
+            shard.violation(format!("{q}:failed-at-exactly-the-limit"), detail(q, limits, l, prog_l, at_l));
+            shard.count(&format!("c49:{q}:failure_at_L:{v}"));
+        }
+        Outcome::Other(o) => {
+            shard.count(&format!("c49:{q}:other_at_L:{o}"));
+            shard.seen("c49:unexpected_outcomes", &format!("{q}@L:{o}"));
+        }
+    }
+    match at_l1 {
+        Outcome::Success => shard.violation(format!("{q}:succeeded-above-the-limit"), detail(q, limits, l, prog_l1, at_l1)),
+        Outcome::Limit(v, am) => {
+            shard.count(&format!("c49:{q}:failure_at_L_plus_1:{v}"));
+            if v != expected_variant(q) {
+                shard.violation(format!("{q}:wrong-limit-error-variant"), detail(q, limits, l, prog_l1, at_l1));
+            }
+            if let Some((actual, max)) = am {
+                if *actual <= *max || *max != l {
+                    shard.violation(format!("{q}:limit-error-reports-actual-not-above-max"), detail(q, limits, l, prog_l1, at_l1));
+                }
+                if *actual != l + 1 {
+                    shard.violation(format!("{q}:limit-error-reports-wrong-actual"), detail(q, limits, l, prog_l1, at_l1));
+                }
+            }
+        }
+        Outcome::Other(o) => {
+            shard.count(&format!("c49:{q}:other_at_L_plus_1:{o}"));
+            shard.seen("c49:unexpected_outcomes", &format!("{q}@L+1:{o}"));
+        }
+    }
+}
+
+fn key_of_encoded_len(target: usize) -> Option<Vec<u8>> {
+    for n in target.saturating_sub(8)..=target {
+        let k = vec![0x6bu8; n];
+        if scrypto_encode(&k).unwrap().len() == target {
+            return Some(k);
+        }
+    }
+    None
+}
+
+fn kv_entry_len(payload: &Vec<u8>) -> usize {
+    let v: ScryptoValue = scrypto_decode(&scrypto_encode(payload).unwrap()).unwrap();
+    scrypto_encode(&KeyValueEntrySubstate::unlocked_entry(v)).unwrap().len()
+}
+
+fn payload_for_entry_len(target: usize) -> Option<Vec<u8>> {
+    for n in target.saturating_sub(24)..=target {
+        let p = vec![0x76u8; n];
+        if kv_entry_len(&p) == target {
+            return Some(p);
+        }
+    }
+    None
+}
+
+fn one_quantity(shard: &mut Shard, b: &mut Bench, rng: &mut Rng, q: &str, base: &LimitParameters) {
+    let mut limits = *base;
+    match q {
+        "events_count" => {
+            // runtime events of the empty program = events before the first finalization event (PayFeeEvent)
+            let (o0, r0) = b.run(shard, "c49:events:baseline", vec![], None);
+            if o0 != Outcome::Success {
+                shard.count("c49:baseline_failed");
+                return;
+            }
+            let ev = &r0.exec.receipt().expect_commit(true).application_events;
+            let base_rt = ev.iter().position(|(id, _)| id.1 == "PayFeeEvent").unwrap_or(ev.len());
+            let l = limits.max_number_of_events;
+            let n = (l - base_rt) as u32;
+            let (a, _) = b.run(shard, "c49:events:L", vec![Op::EmitEvent { count: n, size: 16 }], Some(limits));
+            let (c, _) = b.run(shard, "c49:events:L+1", vec![Op::EmitEvent { count: n + 1, size: 16 }], Some(limits));
+            judge_pair(shard, q, &limits, l, &format!("{base_rt} runtime events of the envelope + {n} probe events"), &a, &format!("{base_rt} + {} probe events", n + 1), &c);
+        }
+        "logs_count" => {
+            let l = limits.max_number_of_logs;
+            let (a, _) = b.run(shard, "c49:logs:L", vec![Op::EmitLog { count: l as u32, size: 8 }], Some(limits));
+            let (c, _) = b.run(shard, "c49:logs:L+1", vec![Op::EmitLog { count: l as u32 + 1, size: 8 }], Some(limits));
+            judge_pair(shard, q, &limits, l, &format!("{l} logs"), &a, &format!("{} logs", l + 1), &c);
+        }
+        "event_size" => {
+            let l = limits.max_event_size;
+            if event_payload_of_size(l).is_none() || event_payload_of_size(l + 1).is_none() {
+                shard.count("c49:unreachable_size_skipped");
+                return;
+            }
+            let (a, _) = b.run(shard, "c49:event_size:L", vec![Op::EmitEvent { count: 1, size: l as u32 }], Some(limits));
+            let (c, _) = b.run(shard, "c49:event_size:L+1", vec![Op::EmitEvent { count: 1, size: l as u32 + 1 }], Some(limits));
+            judge_pair(shard, q, &limits, l, &format!("event of {l} bytes"), &a, &format!("event of {} bytes", l + 1), &c);
+        }
+        "log_size" => {
+            let l = limits.max_log_size;
+            let (a, _) = b.run(shard, "c49:log_size:L", vec![Op::EmitLog { count: 1, size: l as u32 }], Some(limits));
+            let (c, _) = b.run(shard, "c49:log_size:L+1", vec![Op::EmitLog { count: 1, size: l as u32 + 1 }], Some(limits));
+            judge_pair(shard, q, &limits, l, &format!("log of {l} bytes"), &a, &format!("log of {} bytes", l + 1), &c);
+        }
+        "key_size" => {
+            let l = limits.max_substate_key_size;
+            let (Some(k0), Some(k1)) = (key_of_encoded_len_raw(l), key_of_encoded_len_raw(l + 1)) else {
+                shard.count("c49:unreachable_size_skipped");
+                return;
+            };
+            let mode = *rng.pick(&[0u8, 1]);
+            let route = rng.below(2);
+            let prog = |k: Vec<u8>| -> Vec<Op> {
+                if route == 0 {
+                    vec![Op::NewKvStore { dst: 20 }, Op::KvStoreOp { t: Tgt::Slot(20), key: k, mode, payload: vec![1, 2, 3] }]
+                } else {
+                    vec![Op::KvActorOp { handle: ACTOR_STATE_SELF, collection: 0, key: k, mode, payload: vec![1, 2, 3] }]
+                }
+            };
+            let (a, ra) = b.run(shard, "c49:key_size:L", prog(k0), Some(limits));
+            let a = step_level(&ra, a);
+            let (c, rc) = b.run(shard, "c49:key_size:L+1", prog(k1), Some(limits));
+            let c = step_level(&rc, c);
+            judge_pair(shard, q, &limits, l, &format!("map key of {l} encoded bytes (route {route}, mode {mode})"), &a, &format!("map key of {} encoded bytes", l + 1), &c);
+        }
+        "value_size" => {
+            let l = limits.max_substate_value_size.min(400_000);
+            limits.max_substate_value_size = l;
+            let (Some(p0), Some(p1)) = (payload_for_entry_len(l), payload_for_entry_len(l + 1)) else {
+                shard.count("c49:unreachable_size_skipped");
+                return;
+            };
+            let prog = |p: Vec<u8>| vec![Op::KvActorOp { handle: ACTOR_STATE_SELF, collection: 0, key: b"v".to_vec(), mode: 1, payload: p }];
+            let (a, ra) = b.run(shard, "c49:value_size:L", prog(p0), Some(limits));
+            let a = step_level(&ra, a);
+            let (c, rc) = b.run(shard, "c49:value_size:L+1", prog(p1), Some(limits));
+            let c = step_level(&rc, c);
+            judge_pair(shard, q, &limits, l, &format!("key-value entry substate of {l} bytes"), &a, &format!("entry substate of {} bytes", l + 1), &c);
+        }
+        "invoke_payload" => {
+            // objective size of the largest invocation argument = kernel hook (bytes of the args value)
+            let l = limits.max_invoke_input_size.min(300_000);
+            limits.max_invoke_input_size = l;
+            let prog = |p: usize| vec![Op::FieldOp { handle: ACTOR_STATE_SELF, index: 0, mode: 0, payload: vec![7u8; p] }];
+            let mut p = l.saturating_sub(600);
+            let mut found = None;
+            for _ in 0..6 {
+                let (o, _) = b.run(shard, "c49:invoke_payload:measure", prog(p), None);
+                if o != Outcome::Success {
+                    break;
+                }
+                let m = b.world.ledger.last_hooks.max_payload;
+                if m == l {
+                    found = Some(p);
+                    break;
+                }
+                p = (p as i64 + l as i64 - m as i64).max(0) as usize;
+            }
+            let Some(p) = found else {
+                shard.count("c49:unreachable_size_skipped");
+                return;
+            };
+            let (o1, _) = b.run(shard, "c49:invoke_payload:measure+1", prog(p + 1), None);
+            let m1 = b.world.ledger.last_hooks.max_payload;
+            if o1 != Outcome::Success || m1 != l + 1 {
+                shard.count("c49:unreachable_size_skipped");
+                return;
+            }
+            let (a, _) = b.run(shard, "c49:invoke_payload:L", prog(p), Some(limits));
+            let (c, _) = b.run(shard, "c49:invoke_payload:L+1", prog(p + 1), Some(limits));
+            judge_pair(shard, q, &limits, l, &format!("largest invocation argument {l} bytes"), &a, &format!("largest invocation argument {} bytes", l + 1), &c);
+        }
+        "call_depth" => {
+            let l = limits.max_call_depth;
+            let pkg = b.world.pkg[rng.usize_below(2)];
+            let (o0, _) = b.run(shard, "c49:call_depth:measure", vec![Op::Recurse { package: pkg, depth: 1 }], None);
+            let d1 = b.world.ledger.last_hooks.max_depth;
+            if o0 != Outcome::Success || d1 > l {
+                shard.count("c49:baseline_failed");
+                return;
+            }
+            let d = (1 + l - d1) as u32;
+            let (om, _) = b.run(shard, "c49:call_depth:measure", vec![Op::Recurse { package: pkg, depth: d }], None);
+            let dm = b.world.ledger.last_hooks.max_depth;
+            if om != Outcome::Success || dm != l {
+                // harness assumption (one frame per recursion level) does not hold: nothing to judge
+                shard.count("c49:call_depth:recursion_depth_not_additive");
+                shard.seen("c49:unexpected_outcomes", &format!("call_depth: recursion {d} entered depth {dm}, expected {l}, {:?}", om));
+                return;
+            }
+            let (a, _) = b.run(shard, "c49:call_depth:L", vec![Op::Recurse { package: pkg, depth: d }], Some(limits));
+            let (c, _) = b.run(shard, "c49:call_depth:L+1", vec![Op::Recurse { package: pkg, depth: d + 1 }], Some(limits));
+            judge_pair(shard, q, &limits, l, &format!("recursion entering frame depth {l}"), &a, &format!("recursion entering frame depth {}", l + 1), &c);
+        }
+        "heap_bytes" | "track_bytes" => {
+            let heap = q == "heap_bytes";
+            let n = rng.range(300, 12_000) as usize;
+            let prog = |n: usize| -> Vec<Op> {
+                if heap {
+                    vec![Op::NewObject { dst: 20, blueprint: BP_INNER.to_string(), nfields: 1, payload: vec![9u8; n] }]
+                } else {
+                    vec![Op::KvActorOp { handle: ACTOR_STATE_SELF, collection: 0, key: b"t".to_vec(), mode: 1, payload: vec![9u8; n] }]
+                }
+            };
+            let with = |limits: &LimitParameters, v: usize| -> LimitParameters {
+                let mut l = *limits;
+                if heap {
+                    l.max_heap_substate_total_bytes = v
+                } else {
+                    l.max_track_substate_total_bytes = v
+                }
+                l
+            };
+            // bisection for the smallest limit under which prog(n) commits
+            let mut hi = if heap { limits.max_heap_substate_total_bytes } else { limits.max_track_substate_total_bytes };
+            let mut lo = 0usize;
+            let (oh, _) = b.run(shard, "c49:bytes:search", prog(n), Some(with(&limits, hi)));
+            if oh != Outcome::Success {
+                shard.count("c49:baseline_failed");
+                return;
+            }
+            while hi - lo > 1 {
+                let mid = lo + (hi - lo) / 2;
+                let (o, _) = b.run(shard, "c49:bytes:search", prog(n), Some(with(&limits, mid)));
+                match o {
+                    Outcome::Success => hi = mid,
+                    Outcome::Limit(ref v, _) if v == expected_variant(q) => lo = mid,
+                    other => {
+                        shard.seen("c49:unexpected_outcomes", &format!("{q}@search:{:?}", other).chars().take(80).collect::<String>());
+                        shard.count("c49:search_aborted");
+                        return;
+                    }
+                }
+            }
+            let t = hi;
+            shard.count(&format!("c49:{q}:thresholds_found"));
+            shard.max(&format!("c49:{q}:threshold"), t as u64);
+            // program below its own threshold: must report actual == T
+            let (below, _) = b.run(shard, "c49:bytes:T-1", prog(n), Some(with(&limits, t - 1)));
+            match &below {
+                Outcome::Limit(v, Some((actual, max))) if v == expected_variant(q) && *actual == t && *max == t - 1 => shard.count(&format!("c49:{q}:self_report_consistent")),
+                other => shard.violation(format!("{q}:limit-error-reports-actual-not-above-max"), detail(q, &limits, t - 1, &format!("program with threshold {t}"), other)),
+            }
+            // L = T: program needing T succeeds, program needing T+1 fails, and succeeds at T+1
+            let lim_t = with(&limits, t);
+            let (a, _) = b.run(shard, "c49:bytes:L", prog(n), Some(lim_t));
+            let (c, _) = b.run(shard, "c49:bytes:L+1", prog(n + 1), Some(lim_t));
+            judge_pair(shard, q, &lim_t, t, &format!("program using {t} bytes (payload {n})"), &a, &format!("same program with one more payload byte"), &c);
+            let (e, _) = b.run(shard, "c49:bytes:L+1@T+1", prog(n + 1), Some(with(&limits, t + 1)));
+            if e != Outcome::Success {
+                shard.violation(format!("{q}:failed-at-exactly-the-limit"), detail(q, &limits, t + 1, "program with one more payload byte than the T-program", &e));
+            } else {
+                shard.count(&format!("c49:{q}:shifted_threshold_exact"));
+            }
+        }
+        _ => unreachable!(),
+    }
+}
+
+fn key_of_encoded_len_raw(target: usize) -> Option<Vec<u8>> {
+    // the probe encodes the raw key with SBOR (Vec<u8>): find the raw key whose encoding has `target` bytes
+    key_of_encoded_len(target)
+}
+
+/// The probe continues after a failed non-invoking step: take the limit error from the step result
+/// when the transaction as a whole still committed.
+fn step_level(r: &PExec, tx: Outcome) -> Outcome {
+    if tx != Outcome::Success {
+        return tx;
+    }
+    for ev in &r.trace {
+        if let TraceEv::Step(s) = ev {
+            if let Err(e) = &s.result {
+                if let Some(pos) = e.find("TransactionLimitsError(") {
+                    let name: String = e[pos + "TransactionLimitsError(".len()..].chars().take_while(|c| c.is_alphanumeric()).collect();
+                    return Outcome::Limit(name, None);
+                }
+                return Outcome::Other(format!("step-error:{}", crate::c50::err_class(e)));
+            }
+        }
+    }
+    tx
+}
+
+pub fn run(args: &Args) -> i32 {
+    let mut spec = Spec::new(
+        "C49",
+        "exploration",
+        "boundary probes: for random LimitParameters overrides and each of 10 limited quantities (event count, log count, event size, log size, substate key size, substate value size, invoke payload size, call depth, heap substate bytes, track substate bytes) a SysProbe program producing exactly L and one producing L+1 run from the same ledger snapshot; heap/track thresholds by bisection (≈25 runs each); distinct = distinct (quantity, L, outcome pair)",
+    )
+    .assume("event count = events emitted during execution (the receipt's events before the first finalization PayFeeEvent); fee-finalization events are appended after the limit check")
+    .assume("invoke payload and call depth are measured by the kernel hook (bytes of the invocation argument value, depth of the entered frame); heap/track byte accounting is the engine's own (the check is exactness of the threshold: +1 byte <=> +1 limit, and the self-reported actual == max+1)")
+    .assume("limit configurations keep max_event_size >= 64 (the system's own LockFeeEvent must fit) and key/value/payload limits above the sizes of the system's own substates and invocations");
+    for q in QUANTITIES {
+        spec = spec.floor(&format!("c49:{q}:success_at_L"), args.tier.pick(60, 2000)).floor(&format!("c49:{q}:failure_at_L_plus_1:{}", expected_variant(q)), args.tier.pick(60, 2000));
+    }
+    let mut report = Report::new(args, spec);
+    if let Some(path) = &args.replay {
+        let doc: serde_json::Value = serde_json::from_str(&std::fs::read_to_string(path).expect("replay file")).expect("json");
+        let d = doc.get("detail").cloned().unwrap_or_default();
+        let fields: Vec<usize> = d.get("limits_fields").and_then(|f| f.as_array()).map(|a| a.iter().filter_map(|x| x.as_u64().map(|v| v as usize)).collect()).unwrap_or_default();
+        let q = d.get("quantity").and_then(|q| q.as_str()).unwrap_or("").to_string();
+        if fields.len() != 11 || !QUANTITIES.contains(&q.as_str()) {
+            println!("replay file does not describe a C49 boundary case (a violation raised by a global monitor carries the manifest in its detail): {}", d);
+            return 2;
+        }
+        let deadline = std::time::Instant::now() + Duration::from_secs(600);
+        let mut shard = Shard::new(0, "C49", args.tier, deadline);
+        let world = PWorld::new(&mut shard);
+        let snap = world.ledger.sim.create_snapshot();
+        let hist = world.ledger.hist.clone();
+        let mut b = Bench { world, snap, hist };
+        let mut rng = Rng::new(args.seed);
+        let qq = QUANTITIES.iter().find(|x| **x == q).unwrap();
+        one_quantity(&mut shard, &mut b, &mut rng, qq, &limits_from_fields(&fields));
+        println!("replayed quantity {q} under the recorded limits: {} violation(s): {:?}", shard.violations.len(), shard.violations.iter().map(|v| (v.prop.clone(), v.signature.clone())).collect::<Vec<_>>());
+        return if shard.violations.is_empty() { 0 } else { 1 };
+    }
+    let configs = scaled(args, args.tier.pick(200, 20_000));
+    let per_shard = (configs / args.threads as u64).max(1);
+    let budget = Duration::from_secs(budget_secs(args.tier, 90, 840));
+    report.run_shards(49, args.threads, budget, |_i, rng, shard| {
+        let world = PWorld::new(shard);
+        let snap = world.ledger.sim.create_snapshot();
+        let hist = world.ledger.hist.clone();
+        let mut b = Bench { world, snap, hist };
+        let mut n = 0;
+        while n < per_shard && !shard.time_up() {
+            n += 1;
+            let base = random_limits(rng);
+            shard.count("c49:limit_configurations");
+            for q in QUANTITIES {
+                if shard.time_up() {
+                    break;
+                }
+                one_quantity(shard, &mut b, rng, q, &base);
+            }
+            if n == 1 {
+                shard.sample(|| json!({"limits": format!("{:?}", base)}));
+            }
+        }
+    });
+    report.finish()
+}
